@@ -246,6 +246,7 @@ func commonPreconditions(c *Check) {
 	c.loopVarAddresses(c.Prop + ".S3")
 	c.exhaustiveScans(c.Prop + ".S4")
 	c.storedBytesNotAliased(c.Prop + ".S5")
+	c.handlerArgsByName(c.Prop + ".S6")
 }
 
 // schemaPredicate: the validator fn accepts a document only if it passed JSON-schema validation (the schema
@@ -859,6 +860,49 @@ func (c *Check) exhaustiveScans(rule string) {
 		walk(f.Body, 0, nil)
 	}
 	c.req(nLoops >= 20, rule, "scan-loops", token.NoPos, fmt.Sprintf("%d loops, %d break statements", nLoops, nBreaks))
+	// the other half: end-of-block, genesis and query code that hands a callback to one of the module's scans wants every
+	// record visited — no such callback answers "stop" (a handler given a stop result that always returns true ends the
+	// scan after the first pending request)
+	nCb := 0
+	seenCb := map[string]bool{}
+	for _, f := range fs {
+		for _, pa := range c.P.PathsOf(f) {
+			for _, ev := range pa.Events {
+				if ev.Kind != EvCall || ev.CI.fn == nil || !ev.CI.fn.isHandWritten() || ev.CI.fn.Body == nil {
+					continue
+				}
+				for _, a := range ev.CI.args {
+					a = stripConv(a)
+					if !a.Is("func") || len(a.A) < 1 {
+						continue
+					}
+					g := c.P.FuncNamed(a.A[0].At)
+					if g == nil || g.Body == nil || len(g.Res) != 1 {
+						continue
+					}
+					if b, isB := g.Res[0].Type().Underlying().(*types.Basic); !isB || b.Kind() != types.Bool {
+						continue
+					}
+					key := g.Name + ">" + ev.CI.fn.Name
+					if seenCb[key] {
+						continue
+					}
+					seenCb[key] = true
+					nCb++
+					stops := token.NoPos
+					for _, pg := range c.P.PathsOf(g) {
+						if pg.OK() && len(pg.Ret) == 1 && !stripConv(pg.Ret[0]).IsAt("#false") {
+							stops = pg.RetPos
+						}
+					}
+					c.req(stops == token.NoPos, rule, unitConstruct(g, "never-stops:"+ev.CI.fn.Name), g.Body.Pos(),
+						"the callback handed to "+ev.CI.fn.Name+" never asks the scan to stop"+condStr(stops != token.NoPos, ": a path ending at "+c.pos(stops)+" returns something else than false"))
+				}
+			}
+		}
+	}
+	c.Sites += nCb
+	c.req(nCb >= 4, rule, "scan-callbacks", token.NoPos, fmt.Sprintf("%d callbacks with a stop result handed to module scans", nCb))
 }
 
 // funcSig: parameter and result types of a function as one string.
@@ -1245,4 +1289,129 @@ func (c *Check) fractionValidators(rule string) {
 		c.req(lower && upper, rule, g.Name+"#range", g.Body.Pos(),
 			fmt.Sprintf("a value the registered validator of %s accepts lies in %s (established on acceptance: 0 ≤ v: %v, upper bound: %v)", w.fld, rng, lower, upper))
 	}
+}
+
+// handlerArgsByName (S6): the properties speak of messages, the rules of the keeper functions behind them; the two meet in
+// the message handlers, which hand each field of the message to a keeper parameter. Where the keeper parameter carries the
+// name of a field of that message (superMode / SuperMode, repeated / Repeated ...), the argument is that field and not
+// another one of the same type (two neighbouring booleans exchanged compile and pass every test that sets both alike).
+func (c *Check) handlerArgsByName(rule string) {
+	n := 0
+	for _, en := range c.entries(rule) {
+		h := en.Handler
+		if h == nil || h.Body == nil {
+			continue
+		}
+		info := h.Pkg.TypesInfo
+		ast.Inspect(h.Body, func(nd ast.Node) bool {
+			call, ok := nd.(*ast.CallExpr)
+			if !ok {
+				return true
+			}
+			fo, _ := typeutil.Callee(info, call).(*types.Func)
+			if fo == nil || fo.Pkg() == nil || !strings.HasSuffix(fo.Pkg().Path(), "/keeper") {
+				return true
+			}
+			sig, _ := fo.Type().(*types.Signature)
+			if sig == nil || sig.Variadic() || sig.Params().Len() != len(call.Args) {
+				return true
+			}
+			for i, a := range call.Args {
+				sel, isSel := ast.Unparen(a).(*ast.SelectorExpr)
+				if !isSel {
+					continue
+				}
+				fv, isField := info.Uses[sel.Sel].(*types.Var)
+				if !isField || !fv.IsField() {
+					continue
+				}
+				st := types.Unalias(info.TypeOf(sel.X))
+				if p, isPtr := st.Underlying().(*types.Pointer); isPtr {
+					st = types.Unalias(p.Elem())
+				}
+				named, _ := st.(*types.Named)
+				strct, _ := st.Underlying().(*types.Struct)
+				if named == nil || strct == nil || named.Obj().Name() != en.Msg {
+					continue
+				}
+				pn := sig.Params().At(i).Name()
+				want := ""
+				for j := 0; j < strct.NumFields(); j++ {
+					if strings.EqualFold(strct.Field(j).Name(), pn) {
+						want = strct.Field(j).Name()
+					}
+				}
+				if want == "" {
+					continue
+				}
+				n++
+				c.req(want == fv.Name(), rule, fmt.Sprintf("%s#%s.%s", en.Msg, fo.Name(), pn), a.Pos(),
+					fmt.Sprintf("the handler of %s passes the message's %s as parameter %q of %s", en.Msg, want, pn, fo.Name())+condStr(want != fv.Name(), ": it passes "+fv.Name()))
+			}
+			return true
+		})
+	}
+	// the same among the module's own functions: two arguments of one type, each named like the other one's parameter,
+	// are exchanged (the result and the output of a module service handed to the respond function in the wrong order)
+	argName := func(e ast.Expr) string {
+		switch x := ast.Unparen(e).(type) {
+		case *ast.Ident:
+			return x.Name
+		case *ast.SelectorExpr:
+			return x.Sel.Name
+		}
+		return ""
+	}
+	m := 0
+	for _, f := range c.P.Funcs {
+		if f.Body == nil || !f.isHandWritten() {
+			continue
+		}
+		if pk := f.pkgName(); pk != "service" && pk != "keeper" {
+			continue
+		}
+		info := f.Pkg.TypesInfo
+		ast.Inspect(f.Body, func(nd ast.Node) bool {
+			if lit, isLit := nd.(*ast.FuncLit); isLit && lit != f.Lit {
+				return false
+			}
+			call, ok := nd.(*ast.CallExpr)
+			if !ok {
+				return true
+			}
+			fo, _ := typeutil.Callee(info, call).(*types.Func)
+			if fo == nil || fo.Pkg() == nil || !strings.Contains(fo.Pkg().Path(), "irismod/service") {
+				return true
+			}
+			sig, _ := fo.Type().(*types.Signature)
+			if sig == nil || sig.Variadic() || sig.Params().Len() != len(call.Args) {
+				return true
+			}
+			for i := range call.Args {
+				ai, pi := argName(call.Args[i]), sig.Params().At(i).Name()
+				if ai == "" || pi == "" || pi == "_" {
+					continue
+				}
+				if strings.EqualFold(ai, pi) {
+					m++
+					continue
+				}
+				for j := i + 1; j < len(call.Args); j++ {
+					aj, pj := argName(call.Args[j]), sig.Params().At(j).Name()
+					if aj == "" || !strings.EqualFold(ai, pj) || !strings.EqualFold(aj, pi) {
+						continue
+					}
+					if !types.Identical(sig.Params().At(i).Type(), sig.Params().At(j).Type()) {
+						continue
+					}
+					c.req(false, rule, fmt.Sprintf("%s#%s.%s<->%s", f.Name, fo.Name(), pi, pj), call.Args[i].Pos(),
+						fmt.Sprintf("%s is called with %s as parameter %q and %s as parameter %q", fo.Name(), ai, pi, aj, pj))
+				}
+			}
+			return true
+		})
+	}
+	c.req(m >= 100, rule, "arguments-named-like-parameters", token.NoPos, fmt.Sprintf("%d arguments named like the parameter they are passed as; none exchanged with a neighbour of the same type", m))
+	c.Sites += n + m
+	c.req(n >= 20, rule, "handler-arguments", token.NoPos, fmt.Sprintf("%d handler arguments whose keeper parameter carries the name of a message field", n))
 }
